@@ -634,7 +634,7 @@ class Folder:
                 repo_callee = None
             if not isinstance(repo_callee, (FuncInfo, ClassInfo)):
                 repo_callee = None
-        if e.keywords and repo_callee is None and name not in ("int", "itertools.product", "sorted", "max", "min") and not (isinstance(e.func, ast.Name) and isinstance(self.env.get(e.func.id), Abstract)) and not (isinstance(e.func, ast.Attribute) and dotted(e.func) and dotted(e.func).split(".")[0] in self.env):
+        if e.keywords and repo_callee is None and name not in ("int", "itertools.product", "sorted", "max", "min", "functools.partial", "partial", "int.from_bytes") and not (isinstance(e.func, ast.Name) and isinstance(self.env.get(e.func.id), Abstract)) and not (isinstance(e.func, ast.Attribute) and dotted(e.func) and dotted(e.func).split(".")[0] in self.env):
             raise Unfoldable(unparse(e))
         if isinstance(e.func, ast.Attribute) and e.func.attr == "to_bytes" and 1 <= len(args) <= 2:
             v = self.fold(e.func.value)
@@ -988,6 +988,11 @@ class Folder:
                 from .absint import FnRef
 
                 return FnRef(self.repo, r1, self.hook)(*[self.fold(a) for a in args], **{k.arg: self.fold(k.value) for k in e.keywords if k.arg})
+            if isinstance(r1, ast.expr) and isinstance(e.func, ast.Name):
+                # a module-level name bound to a computed callable (functools.partial(...), a lambda, a table lookup)
+                fv1 = Folder({}, self.repo, self._owner_module(e.func), None, self.hook).fold(r1)
+                if isinstance(fv1, (_Lambda, _LocalFn, _Partial)) or type(fv1).__name__ in ("_BoundMethod", "AObj") or (isinstance(fv1, Abstract) and callable(fv1)):
+                    return call_value(self, fv1, [self.fold(a) for a in args], {k.arg: self.fold(k.value) for k in e.keywords if k.arg})
             if isinstance(r1, ClassInfo):
                 # a class of the repository that no rule-specific hook has claimed: the instance its constructor builds
                 from .absint import _RepoShim, construct
